@@ -180,6 +180,7 @@ class Events:
         self.inplace_owned = []  # in-place updates of arrays returned by uninterpreted callables
         self.linspaces = {}      # input name -> dict(a, b, num, endpoint)
         self.intsyms = {}        # atom name -> dict(expr, rounded)
+        self.try_paths = []      # (function, line, caught exception names): the try body was taken, the handlers were not analysed
 
 
 NP_UNARY = {"sqrt", "abs", "absolute", "sign", "log", "exp", "cos", "sin", "deg2rad", "square"}
@@ -197,6 +198,8 @@ class Interp:
         self.follow_base_init = True
         self.opaque_modules = ()   # module name prefixes whose calls are kept as ExtCall records
         self.range_hook = None     # hook(args, target name) for loops over symbolic ranges
+        self.allow_try = False     # True: a non-re-raising try statement is interpreted along its body (the path on which nothing
+                                   # is raised) and logged in ev.try_paths -- the caller must treat the handlers as unanalysed
         self._active_lambdas = []
         self._owned_names = set()
         self._last_opaque_call = None
@@ -467,6 +470,16 @@ class Interp:
                         break
                 return
             raise AnalysisError("%s:%d unsupported loop iterable %s" % (func.qualname, st.lineno, unparse(st.iter)))
+        if isinstance(st, ast.Try) and self.allow_try:
+            names = []
+            for h in st.handlers:
+                t = h.type
+                names += [unparse(x) for x in (t.elts if isinstance(t, ast.Tuple) else [t])] if t is not None else ["<bare>"]
+            self.ev.try_paths.append((func.qualname, st.lineno, names))
+            self.exec_block(st.body, env, func, depth)
+            self.exec_block(st.orelse, env, func, depth)
+            self.exec_block(st.finalbody, env, func, depth)
+            return
         raise AnalysisError("%s:%d unsupported statement %s" % (func.qualname, st.lineno, type(st).__name__))
 
     def _extremum(self, arr, name):
